@@ -114,6 +114,12 @@ def run(rep, idx, tier):
 
     roles, calls = port_roles(idx, c, ctor)
     rps, wps = roles["read_port"], roles["write_port"]
+    import ast as _ast15
+    listed = any(isinstance(x, _ast15.Attribute) and x.attr in ("read_ports", "write_ports", "r_ports", "w_ports") for x in _ast15.walk(c.fi.node))
+    if len(rps) != 1 and listed:
+        rep.unk("C15.3", site, "read port", f"found {len(rps)} read port(s) obtained from <memory>.read_port(); elaborate() takes its ports from the "
+                "memory's port lists instead, whose identity with the constructor's ports is not derived")
+        return
     if len(rps) != 1:
         rep.bad("C15.3", site, "read port", f"expected one read port obtained from <memory>.read_port(), found {len(rps)}")
         return
